@@ -8,7 +8,7 @@ import athlib
 from athlib import codes
 from vlib import codegen, variants
 from vlib.harness import V, derive_seed, run_shards
-from vlib.lib import call
+from vlib.lib import call, OddStr
 
 PROPERTY = 'C07'
 AMBIENT_PASS = True        # the same search once more under unusual ambient settings (vlib.run.AMBIENT_SETTINGS)
@@ -66,6 +66,11 @@ def examine(case):
         out.append(V('normalises', ['raises', r[1], r[3][0]], {'s': s}, r))
         return out
     n = r[1]
+    if len(s) % 3 == 0:
+        # the same text handed over as a str subclass whose str() is something else (a str-mixin Enum member): still that text
+        ro = call(athlib.normalize_event_code, OddStr(s))
+        if ro[:2] != r[:2]:
+            out.append(V('normalises', ['str-subclass-differs', ro[1] if ro[0] == 'exc' else 'value'], {'s': s, 'carrier': 'str-subclass'}, ro[:3], n))
     gn = group_names(core)
     fam_in = families(core)
     tag = gn[0] if gn else (fam_in[0] if fam_in else 'none')
